@@ -620,6 +620,8 @@ FLAGS = [
     'act_muldiv',       # actual argument expression with * or / as top-level operator (otherwise written in parentheses)
     'member_uses_param',  # an internal procedure references a PARAMETER of the host (imported or local)
     'int_uncalled',     # an internal subroutine that is never called stays in the program
+    'callee_stride',    # the callee references a strided section of its array dummy
+    'callee_zero_bound',  # the callee references a section of its array dummy with the literal bound 0
 ]
 # probability (percent) of a flag being on; default FLAG_PCT
 FLAG_PCT = 45
@@ -741,6 +743,10 @@ def make_sub(b, g, name, idx, earlier_subs, funs, host=None, internal=False):
         if F('dummy_dimn'):
             forms += ['dimn', 'dimn']
         form = g.pick(forms)
+        # sections of a dummy with lower bound <= 0 cannot avoid the bound 0 (see _dummy_sections)
+        pos_only = 'callee_zero_bound' in b.fl and F('callee_whole') and not F('callee_zero_bound')
+        if pos_only and form == 'assumed0':
+            form = 'assumed'
         nm = dname(k, at)
         k += 1
         aint = g.pick(['inout', 'inout', 'in'])
@@ -749,6 +755,8 @@ def make_sub(b, g, name, idx, earlier_subs, funs, host=None, internal=False):
             ddims, edims = [[1, E]], [[1, E]]
         elif form == 'lb':
             lb = g.pick([0, 2, -1])
+            if pos_only:
+                lb = 2
             ddims, edims = [[lb, lb + E - 1]], [[lb, lb + E - 1]]
             b.use('dummy_lb')
         elif form == 'assumed':
@@ -933,10 +941,65 @@ def make_sub(b, g, name, idx, earlier_subs, funs, host=None, internal=False):
         else:
             # the same program with the inquiry folded to its value
             body = _bound_inquiries(body, arr[0], (lo_, hi_))[1]
+    if arr and 'callee_stride' in b.fl:
+        lo_, hi_ = env.vars[arr[0]]['dims'][0]
+        seen = {}
+        body = _dummy_sections(body, arr[0], lo_, hi_, not F('callee_stride'), not F('callee_zero_bound'), seen)
+        for k_ in ('callee_stride', 'callee_zero_bound'):
+            if seen.get(k_):
+                b.use(k_)
     r = routine(name, [d['name'] for d in dummies], decls, body)
     sig = {'name': name, 'dummies': dummies, 'internal': internal, 'hread': sorted(hread), 'hwrite': sorted(hwrite),
            'calls': nested_sig, 'kind': 'sub'}
     return r, sig
+
+
+def _litval(e):
+    if e is None:
+        return None
+    if e[0] == 'i':
+        return e[1]
+    if e[0] == 'u' and e[1] == '-' and e[2][0] == 'i':
+        return -e[2][1]
+    return None
+
+
+def _dummy_sections(e, name, lb, ub, nostride, nozero, seen):
+    """
+    rewrite the sections name(lo:hi[:step]) of the 1-D array dummy inside statement / expression JSON: without the
+    stride (same number of elements, contiguous from lo) and / or moved to a window of the same extent whose bounds are
+    not the literal 0 (the whole array if only the full range is left); what remains is recorded in ``seen``
+    """
+    if isinstance(e, dict):
+        return {k: _dummy_sections(x, name, lb, ub, nostride, nozero, seen) for k, x in e.items()}
+    if not isinstance(e, list):
+        return e
+    if len(e) == 2 and e[0] == 'd' and isinstance(e[1], list) and len(e[1]) == 1 and e[1][0][0] == name and e[1][0][1] \
+            and len(e[1][0][1]) == 1 and isinstance(e[1][0][1][0], list) and e[1][0][1][0][:1] == ['rng']:
+        _, lo, hi, st = e[1][0][1][0]
+        lo_v = lb if lo is None else _litval(lo)
+        hi_v = ub if hi is None else _litval(hi)
+        st_v = 1 if st is None else _litval(st)
+        if lo_v is None or hi_v is None or st_v is None or st_v < 1:
+            return e
+        count = (hi_v - lo_v) // st_v + 1
+        if st_v != 1 and nostride:
+            st_v, hi_v, hi, st = 1, lo_v + count - 1, 1, None
+            lo = lit(lo_v)
+        if nozero and ((lo is not None and lo_v == 0) or (hi is not None and hi_v == 0)) and st_v == 1:
+            wins = [w for w in range(lb, ub - count + 2) if w != 0 and w + count - 1 != 0]
+            if wins:
+                lo_v = min(wins, key=lambda w: (abs(w - lo_v), w))
+                hi_v = lo_v + count - 1
+            elif count == ub - lb + 1:
+                return var(name)
+        if st_v != 1:
+            seen['callee_stride'] = True
+        if (lo is not None and lo_v == 0) or (hi is not None and hi_v == 0):
+            seen['callee_zero_bound'] = True
+        return ['d', [[name, [['rng', None if lo is None and lo_v == lb else lit(lo_v),
+                               None if hi is None and hi_v == ub else lit(hi_v), None if st_v == 1 else lit(st_v)]]]]]
+    return [_dummy_sections(x, name, lb, ub, nostride, nozero, seen) for x in e]
 
 
 def _bound_inquiries(e, name, fold):
@@ -1143,7 +1206,10 @@ def _array_actual(b, g, env, d, used_w, banned_w, banned_r):
 
 def safe_actual(b, e):
     """an actual argument expression; without act_muldiv a top-level product / quotient is written in parentheses"""
-    if isinstance(e, list) and e and e[0] == 'b' and e[1] in ('*', '/') and 'act_muldiv' in b.fl:
+    top = e
+    while isinstance(top, list) and len(top) == 3 and top[0] == 'u' and top[1] == '-':
+        top = top[2]        # a sign in front of a product / quotient: -n/4
+    if isinstance(top, list) and top and top[0] == 'b' and top[1] in ('*', '/') and 'act_muldiv' in b.fl:
         if b.F('act_muldiv'):
             b.use('act_muldiv')
             return e
@@ -1398,6 +1464,8 @@ def fn_site(b, g, env, pool, prefix, subs_in=()):
                 if a is not None and a[0] == 'd':
                     written.add(a[1][0][0])
         if mentions(call, written | set(s.get('hwrite', ()))):
+            return [['assign', var(lhs), call]], 'plain'
+        if b.F('clash_dummy') and not b.F('clash_actual') and mentions(call, {d['name'] for d in s['dummies']}):
             return [['assign', var(lhs), call]], 'plain'
         if dn in c[3]:
             c[3][dn] = call
